@@ -1,13 +1,16 @@
-(* Extract.v — extraction of the executable model to OCaml.  ExtrOcamlBasic only:
-   bool, option, unit, list, prod, sumbool, sumor and andb/orb are mapped to OCaml's; N, Z,
-   positive and nat stay Coq datatypes.  No Extract Constant / Extract Inductive of our own. *)
-From Coq Require Import ExtrOcamlBasic.
-From Theo Require Import Base VMModel.
+(* Extract.v — extraction of the executable model to OCaml.  ExtrOcamlBasic and ExtrOcamlString only:
+   bool, option, unit, list, prod, sumbool, sumor, andb/orb (and ascii/string -> char / char list,
+   used only for the names of error kinds in driver output) are mapped to OCaml's; N, Z, positive
+   and nat stay Coq datatypes.  No Extract Constant / Extract Inductive of our own. *)
+From Coq Require Import ExtrOcamlBasic ExtrOcamlString.
+From Theo Require Import Base VMModel Tokens Errors Regex Lexer Scan Gen_Lexer.
 Extraction Language OCaml.
 Set Extraction KeepSingleton.
 Cd "extracted".
 Separate Extraction
-  Base.dec Base.dec_z Base.str_ltb Base.str_eqb
+  Base.dec Base.dec_z Base.str_ltb Base.str_eqb Base.ainsert
   VMModel.init VMModel.api_step VMModel.run_hist VMModel.views VMModel.isDone VMModel.getCurrentBreak
-  VMModel.exec1 VMModel.execute VMModel.available VMModel.bp_ltb VMModel.z_ltb.
+  VMModel.exec1 VMModel.execute VMModel.available VMModel.bp_ltb VMModel.z_ltb
+  Tokens.tk_num Tokens.all_tkinds Errors.ekind_name Errors.perr_type
+  Scan.scan Gen_Lexer.rules Lexer.lex.
 Cd "..".
